@@ -8,7 +8,7 @@ use refimpl::wire::{self, DataBody, DemandActive, FpUpdate, Rect};
 use serde::{Deserialize, Serialize};
 
 pub const LEVEL: &str = "exploration";
-pub const RULE: &str = "case = history over the 11-letter alphabet of server messages {demand-active, synchronize, control-cooperate, control-granted, control-other, font-map, set-error-info, unknown data PDU, deactivate-all, fast-path bitmap, fast-path other}, one PDU per frame (plus, while the client is active, batches of several slow-path PDUs in one MCS frame: generated joins and the list of every 2- and 3-letter batch, each followed by a bitmap and a demand-active probe), on a fresh connected client; after every step an input attempt (write pointer, try_write key). exhaustive section enumerates every history up to length 5 (quick) / 6 (thorough); random section histories up to length 60. Oracle = reference automaton written from the property: Await(DemandActive) -demand-active-> emits exactly [confirm-active, synchronize, cooperate, request-control, font-list] with that share id -> Await(Sync) -> Await(Cooperate) -> Await(Granted) -> Await(FontMap) -> Active -deactivate-all-> Await(DemandActive); any other letter emits nothing and does not advance; write is Ok with exactly one input PDU iff Active, otherwise Err (try_write Ok) with zero bytes; bitmap callbacks iff Active. Where the property is silent (deactivate-all during the handshake) both 'stay' and 'restart' are allowed. Non-trivial = history containing a complete activation or an input attempt refused after one; distinct by hash of the history.";
+pub const RULE: &str = "case = history over the 11-letter alphabet of server messages {demand-active, synchronize, control-cooperate, control-granted, control-other, font-map, set-error-info, unknown data PDU, deactivate-all, fast-path bitmap, fast-path other}, one PDU per frame (plus, while the client is active, batches of several slow-path PDUs in one MCS frame: generated joins and the list of every 2- and 3-letter batch, each followed by a bitmap and a demand-active probe), on a fresh connected client; after every step an input attempt (write pointer, try_write key). server-profiles: the activation script (with noise letters) against 32 server variants (reported RDP version 4 / 5 / 5.1 / 10.x / unknown x assigned user id); many-cycles: 40, 70 and 300 complete activation cycles in one session; a third of the generated histories use a non-default server variant. exhaustive section enumerates every history up to length 5 (quick) / 6 (thorough); random section histories up to length 60. Oracle = reference automaton written from the property: Await(DemandActive) -demand-active-> emits exactly [confirm-active, synchronize, cooperate, request-control, font-list] with that share id -> Await(Sync) -> Await(Cooperate) -> Await(Granted) -> Await(FontMap) -> Active -deactivate-all-> Await(DemandActive); any other letter emits nothing and does not advance; write is Ok with exactly one input PDU iff Active, otherwise Err (try_write Ok) with zero bytes; bitmap callbacks iff Active. Where the property is silent (deactivate-all during the handshake) both 'stay' and 'restart' are allowed. Non-trivial = history containing a complete activation or an input attempt refused after one; distinct by hash of the history.";
 
 #[derive(Serialize, Deserialize, Hash, Clone, Copy, Debug, PartialEq, Eq)]
 pub enum Letter {
@@ -34,6 +34,24 @@ pub struct Case {
     /// batch semantics follow from the property: model exactly Active, slow-path letters, no demand-active)
     #[serde(default)]
     pub joins: Vec<bool>,
+    /// 0 = the usual server; otherwise a server reporting another RDP version / assigning other identifiers (see `profile_of`)
+    #[serde(default)]
+    pub variant: u8,
+}
+
+pub const VERSIONS: [u32; 8] = [0x00080004, 0x00080001, 0x00080005, 0x00080006, 0x0008000D, 0x00080011, 0x00080010, 0x12345678];
+
+/// the server the history is played by: the activation automaton must not depend on what the server reported earlier
+pub fn profile_of(variant: u8) -> ServerProfile {
+    let uid = [1004u16, 1001, 0x8000, 65535][(variant as usize / VERSIONS.len()) % 4];
+    let mut p = ServerProfile::simple(uid, 0x000103EA);
+    let version = VERSIONS[variant as usize % VERSIONS.len()];
+    for b in p.ccrsp.blocks.iter_mut() {
+        if let refimpl::gcc::ScBlock::Core { version: v, .. } = b {
+            *v = version;
+        }
+    }
+    p
 }
 
 fn batchable(l: Letter) -> bool {
@@ -66,8 +84,12 @@ fn step(st: St, l: Letter) -> (Vec<St>, bool) {
 
 pub fn run(c: &Case) -> Outcome {
     let mut out = Outcome::new();
-    let mut profile = ServerProfile::simple(1004, 0x000103EA);
+    let mut profile = profile_of(c.variant);
     profile.auto = false;
+    let uid = profile.user_id;
+    if c.variant != 0 {
+        out.label("other-server-profile");
+    }
     let (duplex, h) = mem::new_duplex(profile, None);
     let (r, step_name) = mem::mem_connect(&ClientCfg::simple(), duplex, 1);
     let mut conn = match r {
@@ -107,9 +129,9 @@ pub fn run(c: &Case) -> Outcome {
             let mut all = refimpl::rd::Built::new();
             for (k, g) in group.iter().enumerate() {
                 let one = match g {
-                    Letter::Synchronize => wire::synchronize(current_share, su, 1004),
+                    Letter::Synchronize => wire::synchronize(current_share, su, uid),
                     Letter::Cooperate => wire::control(current_share, su, 4, 0, 0),
-                    Letter::Granted => wire::control(current_share, su, 2, 1004, 0x03EA),
+                    Letter::Granted => wire::control(current_share, su, 2, uid, 0x03EA),
                     Letter::ControlOther => wire::control(current_share, su, if (i + k) % 2 == 0 { 3 } else { 1 }, 0, 0),
                     Letter::FontMap => wire::font_map(current_share, su),
                     Letter::SetErrorInfo => wire::set_error_info(current_share, su, 0),
@@ -131,9 +153,9 @@ pub fn run(c: &Case) -> Outcome {
                     prev_share = s.server.share_id;
                     s.server.pdu_demand_active(&d)
                 }
-                Letter::Synchronize => s.server.wrap(&wire::synchronize(current_share, su, 1004)),
+                Letter::Synchronize => s.server.wrap(&wire::synchronize(current_share, su, uid)),
                 Letter::Cooperate => s.server.wrap(&wire::control(current_share, su, 4, 0, 0)),
-                Letter::Granted => s.server.wrap(&wire::control(current_share, su, 2, 1004, 0x03EA)),
+                Letter::Granted => s.server.wrap(&wire::control(current_share, su, 2, uid, 0x03EA)),
                 Letter::ControlOther => s.server.wrap(&wire::control(current_share, su, if i % 2 == 0 { 3 } else { 1 }, 0, 0)),
                 Letter::FontMap => s.server.wrap(&wire::font_map(current_share, su)),
                 Letter::SetErrorInfo => s.server.wrap(&wire::set_error_info(current_share, su, 0)),
@@ -315,11 +337,12 @@ fn all_histories(maxlen: usize, part: usize, parts: usize) -> impl Iterator<Item
             h.push(ALPHABET[k % 11]);
             k /= 11;
         }
-        Case { history: h, joins: Vec::new() }
+        Case { history: h, joins: Vec::new(), variant: 0 }
     })
 }
 
 pub fn decode(s: &mut Src) -> Case {
+    let variant = if s.chance(96) { s.below(32) as u8 } else { 0 };
     let n = 1 + s.below(60);
     // biased walk: mostly the letter that advances the handshake so that deep states are reached
     let script = [Letter::DemandActive, Letter::Synchronize, Letter::Cooperate, Letter::Granted, Letter::FontMap, Letter::FpBitmap, Letter::DeactivateAll];
@@ -336,7 +359,7 @@ pub fn decode(s: &mut Src) -> Case {
             history.push(s.pick(&ALPHABET));
         }
     }
-    Case { history, joins }
+    Case { history, joins, variant }
 }
 
 pub fn check(rep: &Report) {
@@ -371,10 +394,42 @@ pub fn check(rep: &Report) {
                     }
                     history.extend(tail);
                     joins.extend([false, false]);
-                    b.push(Case { history, joins });
+                    b.push(Case { history, joins, variant: 0 });
                 }
             }
         }
     }
     rep.list("batched-frames", b, run);
+    // every server profile variant x the activation script with noise letters between the steps, twice around
+    let mut pv = Vec::new();
+    let script = [Letter::DemandActive, Letter::Synchronize, Letter::Cooperate, Letter::Granted, Letter::FontMap, Letter::FpBitmap, Letter::DeactivateAll];
+    for variant in 0..32u8 {
+        for noise in [None, Some(Letter::FpBitmap), Some(Letter::SetErrorInfo), Some(Letter::ControlOther), Some(Letter::FpOther)] {
+            let mut history = Vec::new();
+            for _round in 0..2 {
+                for l in script {
+                    history.push(l);
+                    if let Some(n) = noise {
+                        history.push(n);
+                    }
+                }
+            }
+            pv.push(Case { history, joins: Vec::new(), variant });
+        }
+    }
+    rep.list("server-profiles", pv, run);
+    // many complete activation cycles in one session (state that accumulates from one activation to the next)
+    let mut cyc = Vec::new();
+    for (rounds, variant) in [(40usize, 0u8), (300, 0), (70, 9)] {
+        let mut history = Vec::new();
+        for r in 0..rounds {
+            history.extend(script);
+            if r % 7 == 3 {
+                history.push(Letter::DeactivateAll);
+            }
+        }
+        cyc.push(Case { history, joins: Vec::new(), variant });
+    }
+    rep.list("many-cycles", cyc, run);
+    rep.require("histories-random", "other-server-profile", 1000);
 }
